@@ -186,6 +186,10 @@ type Instance struct {
 	Alias string `json:"alias,omitempty"`
 	Qual  string `json:"qual,omitempty"`
 	Order int    `json:"order,omitempty"`
+	// OrderRaw: what Order() answers until the instance's own initialization callback (Init /
+	// AfterPropertiesSet) has run - a component that works out its order while it initialises.
+	// Order is what it answers from then on, i.e. whenever the container sequences it.
+	OrderRaw *int   `json:"orderRaw,omitempty"`
 	Kind  string `json:"kindv,omitempty"`
 	// InitLookups: instance ids this instance looks up by name (App.GetComponentByName) from
 	// inside its Init / AfterPropertiesSet callback - a dependency cycle can be closed during
@@ -322,6 +326,46 @@ func (p *Program) NameOf(i *Instance) string {
 		return i.Alias
 	}
 	return DefaultName(i.Type)
+}
+
+// RemoveInstance drops the instance and everything that only makes sense with it: definitions
+// it would have registered programmatically, lookups of it, processor rules about it.
+func (p *Program) RemoveInstance(id string) {
+	gone := map[string]bool{id: true}
+	for changed := true; changed; {
+		changed = false
+		for _, i := range p.Instances {
+			if !gone[i.ID] && i.ContribBy != "" && gone[i.ContribBy] {
+				gone[i.ID] = true
+				changed = true
+			}
+		}
+	}
+	var keep []*Instance
+	for _, i := range p.Instances {
+		if gone[i.ID] {
+			continue
+		}
+		var ls []string
+		for _, l := range i.InitLookups {
+			if !gone[l] {
+				ls = append(ls, l)
+			}
+		}
+		i.InitLookups = ls
+		keep = append(keep, i)
+	}
+	p.Instances = keep
+	for _, pr := range p.Procs {
+		var rs []*Rule
+		for _, r := range pr.Rules {
+			if gone[r.Target] || (r.Action == "lookup" && gone[r.Sub]) {
+				continue
+			}
+			rs = append(rs, r)
+		}
+		pr.Rules = rs
+	}
 }
 
 func (p *Program) Clone() *Program {
